@@ -634,7 +634,7 @@ def run(ctx: Ctx) -> None:
         res = run_tlc("PchipGrad", None, workdir=ctx.work, name=f"mc_{which}", cfg_text=cfg_text(which, True, True), coverage=True)
         ctx.add_tlc(res)
         verdict[which] = [v[1] for v in res["violated"]]
-        if res.get("coverage_zero"):
+        if res.get("coverage_zero") and not res["violated"]:
             ctx.notes.append(f"{which}: spec actions never taken: {res['coverage_zero']}")
         out = res["out"]
         if res["violated"]:
